@@ -614,6 +614,7 @@ func assignIPFromLocalPool(log logr.Logger, podsMapper map[string]*PodRequest, i
 
 	// only pending pods is handled
 	for podID, info := range pendingPods {
+		pickedIPv4 := false
 		// choose eni first ...
 		if info.RequireIPv4 && info.ipv4Ref == nil {
 			if info.IPv4 == "" {
@@ -647,6 +648,7 @@ func assignIPFromLocalPool(log logr.Logger, podsMapper map[string]*PodRequest, i
 						}
 						v.IP.PodID = podID
 						v.IP.PodUID = info.PodUID
+						pickedIPv4 = true
 						log.Info("assign ip", "pod", podID, "ip", v.IP.IP, "eni", v.NetworkInterface.ID)
 						break
 					}
@@ -699,7 +701,8 @@ func assignIPFromLocalPool(log logr.Logger, podsMapper map[string]*PodRequest, i
 			}
 
 			if info.ipv6Ref == nil {
-				if info.IPv4 == "" && info.ipv4Ref != nil {
+				// only an address picked above is given back, a binding from an earlier pass may be in use
+				if pickedIPv4 {
 					log.Info("failed to get ipv6 addr, roll back ipv4", "pod", podID, "ip", info.ipv4Ref.IP)
 
 					info.ipv4Ref.IP.PodID = ""
